@@ -32,6 +32,8 @@ class SeqDict:
     .keys() views for `for` loops and comprehensions"""
 
     def getattr(self, E, st, obj, name):
+        if name in ("keys", "values", "items"):      # the methods, not the model's own fields of the same name
+            return [Res(st, VBound(obj, name))]
         return None
 
     def truth(self, E, st, obj):
